@@ -757,6 +757,15 @@ class OrderedMap(Mapping):
         except KeyError:
             raise KeyError(str(key))
 
+    def __copy__(self):
+        # the default shallow copy would share _items and _index with the original, so that changing
+        # one map changes (and corrupts the index of) the other
+        new = self.__class__.__new__(self.__class__)
+        new.__dict__.update(self.__dict__)
+        new._items = list(self._items)
+        new._index = dict(self._index)
+        return new
+
     def __iter__(self):
         for i in self._items:
             yield i[0]
